@@ -361,7 +361,8 @@ func (e dispatcherCompleteEvent) apply(s *state) {
 	s.conns.ClearBlacklist(infoHash)
 	s.announceQueue.Eject(infoHash)
 	ctrl, ok := s.torrentControls[infoHash]
-	if !ok {
+	if !ok || ctrl.dispatcher != e.dispatcher {
+		// The torrent was removed (and possibly re-added with a new dispatcher) before this event was applied.
 		s.log("dispatcher", e.dispatcher).Error("Completed dispatcher not found")
 		return
 	}
